@@ -1040,7 +1040,7 @@ def main(tier, seed, replay=None):
     # 1. design spec: exhaustive; every Bug_* variant must be refuted (vacuity guard)
     t0 = _time.time()
     cfg = 'MC_Uri_quick.cfg' if tier == 'quick' else 'MC_Uri_thorough.cfg'
-    r = tlc.check('MC_Uri.tla', cfg, coverage=(tier == 'thorough'), timeout=3000)
+    r = tlc.check('MC_Uri.tla', cfg, coverage=(tier == 'thorough'), timeout=3000, heap='3g')      # ~4M small states: 3g is ample
     out.add_tlc(cfg, r)
     rbs = _tlc_parallel([(tlc.expect_violation, ('MC_Uri.tla', 'MC_Uri_bug_%s.cfg' % b), {'timeout': 600, 'workers': 2})
                          for b in BUGS])
